@@ -108,6 +108,86 @@ class ChartRun(object):
     self.created = []        # uids of events created since the last observation
     self.vars = {v: False for v in sc['spec'].get('vars', [])}
     self.rev = {}            # id(handler) -> state name
+    self.companion = None
+    self.companion_log = []
+    self.companion_problems = []
+
+  # ---- a second, independent chart: actions of the chart under test send it events ("orthogonal component")
+  def poke(self):
+    ev = seams.mods['event']
+    hsm = seams.mods['hsm']
+    rs, signals = ev.return_status, ev.signals
+    if self.companion is None:
+      log = self.companion_log
+
+      def c_outer(chart, e):
+        if e.signal == signals.ENTRY_SIGNAL:
+          log.append('enter outer'); return rs.HANDLED
+        if e.signal == signals.EXIT_SIGNAL:
+          log.append('exit outer'); return rs.HANDLED
+        if e.signal == signals.INIT_SIGNAL:
+          return chart.trans(c_a)
+        chart.temp.fun = chart.top
+        return rs.SUPER
+
+      def c_mid(chart, e):
+        if e.signal == signals.ENTRY_SIGNAL:
+          log.append('enter mid'); return rs.HANDLED
+        if e.signal == signals.EXIT_SIGNAL:
+          log.append('exit mid'); return rs.HANDLED
+        chart.temp.fun = c_outer
+        return rs.SUPER
+
+      def c_a(chart, e):
+        if e.signal == signals.ENTRY_SIGNAL:
+          log.append('enter a'); return rs.HANDLED
+        if e.signal == signals.EXIT_SIGNAL:
+          log.append('exit a'); return rs.HANDLED
+        if e.signal_name == 'PK':
+          return chart.trans(c_b)
+        chart.temp.fun = c_mid
+        return rs.SUPER
+
+      def c_deep(chart, e):
+        if e.signal == signals.ENTRY_SIGNAL:
+          log.append('enter deep'); return rs.HANDLED
+        if e.signal == signals.EXIT_SIGNAL:
+          log.append('exit deep'); return rs.HANDLED
+        chart.temp.fun = c_outer
+        return rs.SUPER
+
+      def c_deeper(chart, e):
+        if e.signal == signals.ENTRY_SIGNAL:
+          log.append('enter deeper'); return rs.HANDLED
+        if e.signal == signals.EXIT_SIGNAL:
+          log.append('exit deeper'); return rs.HANDLED
+        chart.temp.fun = c_deep
+        return rs.SUPER
+
+      def c_b(chart, e):
+        if e.signal == signals.ENTRY_SIGNAL:
+          log.append('enter b'); return rs.HANDLED
+        if e.signal == signals.EXIT_SIGNAL:
+          log.append('exit b'); return rs.HANDLED
+        if e.signal_name == 'PK':
+          return chart.trans(c_a)
+        chart.temp.fun = c_deeper
+        return rs.SUPER
+      self.companion = hsm.HsmEventProcessor()
+      self.companion.start_at(c_outer)
+      self.companion_states = ('c_a', 'c_b')
+      del log[:]
+    c = self.companion
+    before = c.state.fun.__name__
+    n0 = len(self.companion_log)
+    c.dispatch(ev.Event(signal='PK'))
+    after = c.state.fun.__name__
+    got = self.companion_log[n0:]
+    want = (['exit a', 'exit mid', 'enter deep', 'enter deeper', 'enter b'] if before == 'c_a'
+            else ['exit b', 'exit deeper', 'exit deep', 'enter mid', 'enter a'])
+    if got != want or after == before:
+      self.companion_problems.append((before, after, got, want))
+    self.sim.probe('nested_dispatch_to_other_chart')
 
   def ref_state_at(self, i):
     for j in range(min(i, len(self.steps)) - 1, -1, -1):
@@ -153,6 +233,9 @@ class ChartRun(object):
       except AssertionError:
         pass     # child_state of a state that does not enclose the current one
       return
+    if op == 'poke':
+      self.poke()
+      return
     if not hasattr(chart, 'post_fifo'):
       return
     self.rec('fx', op, f.get('sig') or f.get('text'), uid)
@@ -162,6 +245,8 @@ class ChartRun(object):
       chart.post_lifo(self.new_event(f['sig'], uid))
     elif op == 'defer':
       chart.defer(e)
+    elif op == 'defer_new':
+      chart.defer(self.new_event(f['sig'], uid))
     elif op == 'recall':
       chart.recall()
     elif op == 'scribble':
@@ -338,11 +423,20 @@ class ChartRun(object):
           c.subscribe(ev.Event(signal=pre[1]))
         elif pre[0] == 'publish':
           c.publish(ev.Event(signal=pre[1]))
+        elif pre[0] == 'defer':
+          # an event is set aside before the chart is started
+          c.defer(pre_events.pop(0))
       c.start_at(build.h[sc['start']])
       self.started = True
       if is_ao:
         self.await_idle()
     pred0 = None
+    pre_events = []
+    for pre in sc.get('pre_start') or []:
+      if pre[0] == 'defer':
+        e = self.new_event(pre[1])
+        pre_events.append(e)
+        self.qm.defer((e.payload, pre[1]))
     try:
       pred0 = self.ref.start(sc['start'])
       self._apply_fx(pred0, None)
@@ -453,6 +547,8 @@ class ChartRun(object):
         self.qm.post_lifo((uid, f['sig']))
       elif op == 'defer':
         self.qm.defer(cur_ev)
+      elif op == 'defer_new':
+        self.qm.defer((uid, f['sig']))
       elif op == 'recall':
         self.qm.recall()
 
